@@ -1,7 +1,7 @@
 (* Dispatcher for the correspondence check: a case is a list of numbers whose head selects the
    engine; the result is the list of numbers the implementation must print for the same case. *)
 From Coq Require Import List NArith.
-From HecsV Require Import Model.EntityBits Model.Atomic Model.WorldRun Model.ReserveRun.
+From HecsV Require Import Model.EntityBits Model.Atomic Model.WorldRun Model.ReserveRun Model.Tracker.
 Import ListNotations.
 Open Scope N_scope.
 
@@ -9,6 +9,7 @@ Definition run_case (c : list N) : list N :=
   match c with
   | 1 :: args => run_world args
   | 2 :: args => run_twin args
+  | 18 :: args => run_tracker args
   | 19 :: args => run_bits args
   | 6 :: args => run_borrow args
   | 7 :: args => run_reserve args
